@@ -189,7 +189,10 @@ def corpus():
                                                                          ("Te", "trailers"), ("Proxy-Authorization", "x")],
                      resp=mk_resp(404, [("Connection", "X-Rhop"), ("X-Rhop", "1"), ("Server", "up/1")], {"hex": ""})),
             http_req(0, method="PUT", target="/", body={"len": 65536, "seed": 5}, chunked_req=True, resp=mk_resp(502, [("X-From", "upstream")])),
-            http_req(0, method="DELETE", target="/x?" , resp=mk_resp(500, [], {"len": 1000, "seed": 1}))]})
+            http_req(0, method="DELETE", target="/x?" , resp=mk_resp(500, [], {"len": 1000, "seed": 1})),
+            # the control header named in Connection as a padded, non-first token (seeded change C08-3): still forwarded
+            http_req(0, host="10.0.0.1", headers=[("x-piko-endpoint", "e"), ("Connection", "close, x-piko-endpoint")]),
+            http_req(0, host="10.0.0.1", headers=[("X-Piko-Endpoint", "e"), ("Connection", "keep-alive,\tX-Piko-Endpoint")])]})
     truth_views(cs[-1]["nodes"])
     # T1 witness: the upstream dies in the middle of a chunked / Content-Length body, served locally and through a second node
     cut_c = mk_resp(200, [("X-R", "1")], {"len": 5000, "seed": 7}, chunked=True); cut_c["cut_after"] = 1200
@@ -240,6 +243,7 @@ REQ_HDRS = [("X-A", "1"), ("x-a", "2"), ("X-B", ""), ("Accept", "*/*"), ("User-A
             ("Keep-Alive", "timeout=5"), ("Te", "trailers"), ("Te", "gzip"), ("Proxy-Authorization", "x"), ("Upgrade", "h2c"),
             ("Accept-Encoding", "br"), ("Accept-Encoding", "gzip"), ("Range", "bytes=0-1"), ("X-Long", "v" * 300), ("x-c", "a,b , c")]
 CONN_VALUES = ["x-piko-forward", "x-piko-endpoint", "X-Piko-Endpoint, x-piko-forward", "keep-alive", "close", "X-A", "x-a, X-Piko-Forward",
+               "close, x-piko-endpoint", "keep-alive,\tX-Piko-Endpoint", "x-b , x-piko-endpoint ,x-piko-forward",
                " x-piko-forward ,x-b", "x-piko-other", "Upgrade", "upgrade, x-piko-forward", ",,", "X-B,Keep-Alive"]
 RESP_HDRS = [("X-R", "1"), ("x-r", "2"), ("Set-Cookie", "a=1"), ("Set-Cookie", "b=2"), ("Cache-Control", "no-cache"), ("Keep-Alive", "x"),
              ("Server", "up/1"), ("Location", "/elsewhere"), ("X-Piko-Forward", "true"), ("Upgrade", "h2c"), ("X-Empty", "")]
